@@ -370,11 +370,11 @@ func c04r4(r *R) {
 		{"denyDomains", "!invoke forwarder.Matcher.Match(^0, (*net/url.URL).Hostname($0.URL))", "forwarder.ErrProxyDenied"},
 	} {
 		fn := r.method(".", "HTTPProxy", s.fn)
-		if len(fn.AnonFuncs) != 1 {
+		if len(anonFuncs(fn)) != 1 {
 			r.undecided("HTTPProxy."+s.fn, fn.Pos(), "expected one modifier closure")
 			continue
 		}
-		lit := fn.AnonFuncs[0]
+		lit := anonFuncs(fn)[0]
 		ps, _ := enumPaths(lit, 64, 1)
 		var why []string
 		for _, p := range ps {
